@@ -20,7 +20,7 @@ from fractions import Fraction as F
 import core
 import gen
 
-PROOF_MODULES = ["UnytProofs.C15Relations", "UnytProofs.C15", "UnytProofs.C15AddConstants", "UnytProofs.C15Tab1", "UnytProofs.C15Tab2", "UnytProofs.C15Tab3", "UnytProofs.C15Tab4"]
+PROOF_MODULES = ["UnytProofs.C15Relations", "UnytProofs.C15", "UnytProofs.C15AddConstants", "UnytProofs.C15TabAdd", "UnytProofs.C15Tab1", "UnytProofs.C15Tab2", "UnytProofs.C15Tab3", "UnytProofs.C15Tab4"]
 
 GUISE_TOL = F(1, 2 ** 45)
 C2_1E7 = F(299792458) ** 2 / 10 ** 7  # 1/(4 pi eps_0) in the pre-2019 SI: (q_Gauss / q_SI)^2
@@ -68,7 +68,7 @@ def same(a, b, tol=TOL):
 
 def space(sid):
     """the namespace `sid`: pc | top | fresh | sys:<unit system> | custom-registry (user units added) |
-    custom:<length>,<mass>,<time>,<temperature>"""
+    custom:<length>,<mass>,<time>,<temperature>[,<current>]"""
     if sid == "pc":
         import unyt.physical_constants as pc
         return {k: v for k, v in vars(pc).items() if isinstance(v, unyt_quantity)}
@@ -85,10 +85,14 @@ def space(sid):
         reg.add("c15_scruple", 1.2959782e-3, D.mass)
         add_constants(ns, reg)
     elif sid.startswith("custom:"):
-        l, m, t, T = sid[7:].split(",")
-        name = "c15_" + "_".join((l, m, t, T))
+        parts = sid[7:].split(",")
+        l, m, t, T = parts[:4]
+        name = "c15_" + "_".join(parts)
         if name not in unit_system_registry:
-            UnitSystem(name, l, m, t, temperature_unit=T)
+            if len(parts) > 4:  # a unit system whose MKS current unit is not the ampere
+                UnitSystem(name, l, m, t, temperature_unit=T, current_mks_unit=parts[4])
+            else:
+                UnitSystem(name, l, m, t, temperature_unit=T)
         add_constants(ns, UnitRegistry(unit_system=name))
     else:
         raise KeyError(sid)
@@ -181,10 +185,14 @@ def run(tier, seed):
     masses = ["kg", "g", "lb", "oz", "Msun", "Mearth", "amu", "me", "t", "slug", "mg"]
     times = ["s", "min", "hr", "day", "yr", "Myr", "ms", "fortnight", "ns"]
     temps = ["K", "R"]
+    currents = ["mA", "kA", "µA", "MA", "nA"]  # `current_mks_unit=`: a rarely used keyword of UnitSystem
     nextra = 6 if tier == "quick" else 60
     extra = []
     while len(extra) < nextra:
-        sid = "custom:" + ",".join((rng.choice(lengths), rng.choice(masses), rng.choice(times), rng.choice(temps)))
+        parts = [rng.choice(lengths), rng.choice(masses), rng.choice(times), rng.choice(temps)]
+        if len(extra) % 3 == 1:  # every third extra system (at least two per quick run) has a prefixed current unit
+            parts.append(rng.choice(currents))
+        sid = "custom:" + ",".join(parts)
         if sid not in extra and sid not in sids:
             extra.append(sid)
     live = {}
@@ -302,6 +310,7 @@ def run(tier, seed):
                 and core.close(core.b2f(parts[2]), float(q.units.base_offset), 1e-11) and parts[3] == gen.dim_vec(q.units.dimensions)
                 and core.close(core.b2f(parts[4]), core.b2f(lc), 1e-11) and gen.parse_factors(parts[5]) == gen.parse_factors(lf))
 
+    n_before = len(chk.disagreements)
     try:
         cgs_um = um_wire(USR["cgs"])
     except Exception as e:  # noqa: BLE001
@@ -344,6 +353,7 @@ def run(tier, seed):
                                      f"writes {[core.b2f(x) if x.isdigit() else x for x in field.split(';')[:2]] if field != 'none' else 'nothing'}"
                                      f" [{field.split(';')[-1]}] via route {r[1]}")
                         break
+    chk.extra["add_constants_model_disagreements"] = len(chk.disagreements) - n_before
 
     # ------------------------------------------------------------------ symbolic definitions vs the live doubles
     live_ratio = {k: v for k, v in vars(PR).items()
